@@ -1,6 +1,8 @@
 use linfa::Float;
 use ndarray::prelude::*;
 use ndarray::Data;
+#[cfg(feature = "serde")]
+use serde_crate::{Deserialize, Serialize};
 use sprs::{CsMat, CsMatView};
 use std::ops::Mul;
 
@@ -20,6 +22,11 @@ pub trait Inner {
 
 /// Allows a kernel to have either a dense or a sparse inner
 /// matrix in a way that is transparent to the user
+#[cfg_attr(
+    feature = "serde",
+    derive(Serialize, Deserialize),
+    serde(crate = "serde_crate")
+)]
 #[derive(Debug, Clone, PartialEq)]
 pub enum KernelInner<K1: Inner, K2: Inner> {
     Dense(K1),
